@@ -37,6 +37,8 @@ def prop_of(prov, item):
         return MERGED_ERR.get(item[1], "C05") if asp == "err" else MERGED.get(asp, "C05")
     if prov in ("merge", "merge-zero"):
         return "C05"
+    if prov == "layout":
+        return "C09"
     if prov == "engfail":
         return "C19"
     if prov == "concurrent":
@@ -87,6 +89,9 @@ def plan_for(pid, tier):
     P["C19"] = [("engfail", 2 if q else 12, 0)]
     if pid == "C19":
         common.update(life_cfg="LifeVecQ.cfg", tags=("verif", "vectors"), attr_all=True, walks=40)
+    P["C09"] = [("mergey", 8 if q else 120, 7), ("syn", 6 if q else 80, 6), ("rich", 4 if q else 60, 5)]
+    if pid == "C09":
+        common.update(layout=True, maxtlc=2000 if q else 30000, life_cfg="LifeSynQ.cfg" if q else "LifeSyn.cfg", walks=120 if q else 3000)
     P["C14"] = [("vec", 24 if q else 250, 5)]
     P["C15"] = [("vec", 30 if q else 300, 10)]
     if pid in ("C14", "C15"):
@@ -97,6 +102,9 @@ def plan_for(pid, tier):
     if pid == "C03":
         import compcheck
         common["pre"] = compcheck.dvvisit_stage
+    if pid == "C09":
+        import compcheck
+        common["pre"] = compcheck.corpus_stage
     if pid == "C11":
         import compcheck
         common["pre"] = compcheck.ctxpool_stage
@@ -161,9 +169,13 @@ def harness(zx, args, sc, timeout=1800):
     return p.stdout
 
 
+LAYOUT = {"on": "0", "leafdec": ""}
+
+
 def validate(sc, trace, name, timeout=3000):
     """TLC validation of a trace; returns (mismatches, accepted, rejected_at, stats)."""
-    outp, st = tlc(sc, "TraceLife", cfg="TraceLife.cfg", env={"TRACE": trace}, workers=1, timeout=timeout, outname=name)
+    outp, st = tlc(sc, "TraceLife", cfg="TraceLife.cfg", env={"TRACE": trace, "LAYOUT": LAYOUT["on"], "LEAFDEC": LAYOUT["leafdec"]},
+                   workers=1, timeout=timeout, outname=name)
     mism, accepted, rej = [], None, None
     for tag, payload in printed(outp, ("MISMATCH", "ACCEPTED", "REJECTED-AT")):
         if tag == "MISMATCH":
@@ -256,6 +268,10 @@ def run_life_check(pid, tier, seed, replay=None, pre=None):
     sc = Scratch()
     try:
         zx = build_harness(plan["tags"])
+        if plan.get("layout"):
+            LAYOUT["on"], LAYOUT["leafdec"] = "1", zx
+        margs = ["-maxtlc", str(plan["maxtlc"])] if plan.get("maxtlc") else []
+        plan["replay_args"] = plan.get("replay_args", []) + margs
         if replay:
             return do_replay(pid, zx, sc, replay, known, plan)
         if pre is None and plan.get("pre"):
@@ -284,9 +300,9 @@ def run_life_check(pid, tier, seed, replay=None, pre=None):
             if "race" in ent[3:]:
                 zxr = zxr or build_harness(plan["tags"], race=True)
                 exe = zxr
-            invocations.append((exe, ["life", "-profile", prof, "-n", str(n), "-steps", str(steps), "-seed", str(seed * 1000 + k)]))
+            invocations.append((exe, ["life", "-profile", prof, "-n", str(n), "-steps", str(steps), "-seed", str(seed * 1000 + k)] + margs))
             log("T: %s " % prof + harness(exe, ["life", "-profile", prof, "-n", str(n), "-steps", str(steps), "-seed", str(seed * 1000 + k),
-                                            "-out", tp, "-dir", sc.path("segs%d" % (k + 1))], sc).strip())
+                                            "-out", tp, "-dir", sc.path("segs%d" % (k + 1))] + margs, sc).strip())
             traces.append(tp)
         allp = sc.path("all.ndjson")
         ranges = []  # (first line, last line) of each harness process within the concatenated trace
@@ -420,7 +436,7 @@ def confirm(pid, zx, sc, trace, viol, known, plan, seed, ranges, limit=3, pre=No
 
 def rerun_slice(zx, sc, sl):
     tp = sc.path("rerun.ndjson")
-    harness(zx, ["life-rerun", "-in", sl, "-out", tp, "-dir", sc.path("segsr")], sc)
+    harness(zx, ["life-rerun", "-in", sl, "-out", tp, "-dir", sc.path("segsr")] + (["-maxtlc", "30000"] if LAYOUT["on"] == "1" else []), sc)
     mism, acc, rej, st = validate(sc, tp, "rerun.out", timeout=900)
     return mism, acc, rej
 
